@@ -3,11 +3,17 @@ From Coq Require Import List Arith Bool Lia.
 From PG Require Import Base.ListSet C20.Model C20.Spec C20.Proofs.
 Import ListNotations.
 
+Lemma new_f_fresh2 g c : ~ In (FN (new_f good g c)) (anodes g ++ occ g).
+Proof. unfold new_f; simpl. rewrite <- f_idx_In. apply first_free_fresh_len. Qed.
+
+Lemma new_s_fresh2 g c : ~ In (SN (new_s good g c)) (anodes g ++ occ g).
+Proof. unfold new_s; simpl. rewrite <- s_idx_In. apply first_free_fresh_len. Qed.
+
 Lemma new_f_fresh g c : ~ In (FN (new_f good g c)) (anodes g).
-Proof. unfold new_f; simpl. rewrite <- f_idx_In. apply next_idx_fresh. Qed.
+Proof. intros H. apply (new_f_fresh2 g c). apply in_or_app. auto. Qed.
 
 Lemma new_s_fresh g c : ~ In (SN (new_s good g c)) (anodes g).
-Proof. unfold new_s; simpl. rewrite <- s_idx_In. apply next_idx_fresh. Qed.
+Proof. intros H. apply (new_s_fresh2 g c). apply in_or_app. auto. Qed.
 
 Lemma add_f_ok ts ats g c d g' c' d' st :
   reg_ok g c -> add_f good ts ats (g, c, d) = ((g', c', d'), st) -> reg_ok g' c' /\ reg g' = reg g /\ d' = d /\ idom g' = idom g.
@@ -180,4 +186,5 @@ Proof.
   - destruct (remove_augs_ok _ _ _ _ _ _ _ _ H E) as [A [B [_ D]]]; (split; [exact A|split; [exact B|exact D]]).
   - inversion E; subst; clear E. split; [|auto]. destruct H; constructor; auto.
   - inversion E; subst; clear E. split; [|auto]. destruct H; constructor; auto.
+  - destruct (amemb a (anodes g ++ occ g)); inversion E; subst; clear E; (split; [|auto]); destruct H; constructor; auto.
 Qed.
